@@ -26,6 +26,17 @@ FIXED_PROGRAMS = [
     # statements the visitor rewrites while lowering them: modifiers on gphase and on gates, folded parameters, aliases, ranges
     'OPENQASM 3.0;\ninclude "stdgates.inc";\nqubit[4] q;\nbit[2] c;\nconst int[8] n = 2;\npow(2) @ gphase(pi / 4);\ninv @ gphase(0.5);\npow(n) @ inv @ s q[0];\nlet a = q[1:3];\nrx(n * 0.25) a;\ninv @ pow(2) @ t q[n];\nctrl @ x q[0], q[3];\nh q[0:2];\nc[0] = measure q[n];\n',
     'OPENQASM 3.0;\ninclude "stdgates.inc";\nqubit[3] q;\ngate g(t) x, y { pow(2) @ rx(t) x; inv @ s y; gphase(t); }\npow(2) @ gphase(0.25);\ninv @ g(0.5) q[0], q[1];\npow(2) @ g(0.25) q[1], q[2];\nnegctrl @ z q[0], q[2];\n',
+    # a loop, whole-register and sliced operands, a custom gate: the source-level and the unrolled program differ a lot
+    'OPENQASM 3.0;\ninclude "stdgates.inc";\nqubit[4] q;\nbit[2] c;\ngate g(t) x, y { rx(t) x; cx x, y; }\nfor int i in [0:2] {\n  h q[i];\n}\ng(0.5) q[0], q[3];\nbarrier q;\ncx q[0:2], q[2:4];\nc[0] = measure q[1];\n',
+    # asymmetric use of two registers of different sizes (mirroring and renumbering are visible), a use only inside a conditional
+    'OPENQASM 3.0;\ninclude "stdgates.inc";\nqubit[5] q;\nqubit[3] r;\nbit[2] c;\nh q[0];\ncx q[0], q[1];\nx r[0];\nc[0] = measure q[1];\nif (c[0] == 1) {\n  z r[0];\n  cx q[1], r[0];\n}\n',
+    # a qubit touched only by barriers (idle once they are removed), another never touched, an operation across the gap
+    'OPENQASM 3.0;\ninclude "stdgates.inc";\nqubit[5] q;\nbit[1] c;\nh q[0];\nbarrier q[2];\ncx q[0], q[4];\nbarrier q[0], q[2];\nc[0] = measure q[4];\n',
+    # declarations without a literal size (a visit rewrites them)
+    'OPENQASM 3.0;\ninclude "stdgates.inc";\nconst int[8] n = 3;\nqubit[n] q;\nqubit a;\nbit c;\nh q[0];\ncx q[0], a;\nbarrier q[1], a;\nc = measure a;\n',
+    # OpenQASM 2 modules go through the same machinery (their own accept / printer)
+    'OPENQASM 2.0;\ninclude "qelib1.inc";\nqreg q[4];\nqreg r[2];\ncreg c[4];\nh q[0];\ncx q[0],q[2];\nbarrier q[0],q[2];\nmeasure q[2] -> c[2];\nu3(0.1,0.2,0.3) r[1];\nif(c==1) x q[0];\nbarrier r;\n',
+    'OPENQASM 2.0;\ninclude "qelib1.inc";\nqreg q[3];\ncreg c[3];\ngate g2(t) a, b { rx(t) a; cx a, b; }\ng2(0.5) q[0],q[1];\nbarrier q;\nh q[1];\nmeasure q -> c;\n',
 ]
 
 
